@@ -103,27 +103,41 @@ def main():
             run_one(sid, also, tier)
         return 0
     if a[0] == "table":
-        print("| seeded change | property | what it does | own check | other checks that alarm |")
-        print("|---|---|---|---|---|")
-        for sid in sorted(os.listdir(SEEDED)):
-            d = os.path.join(SEEDED, sid)
-            if not os.path.exists(os.path.join(d, "meta.json")):
-                continue
-            meta = json.load(open(os.path.join(d, "meta.json")))
-            res = json.load(open(os.path.join(d, "result.json"))) if os.path.exists(os.path.join(d, "result.json")) else {"runs": {}}
-            prop = meta["property"]
-            own = "not run"
-            others = []
-            for k, r in sorted(res["runs"].items()):
-                c, tier = k.split(":")
-                verdict = "silent" if r["exit"] == 0 else ("VIOLATION with replay" if any("no-failing-input-found" not in l for l in r["lines"]) else "VIOLATION no-failing-input-found")
-                if c == prop:
-                    if own == "not run" or "replay" in verdict:
-                        own = f"{verdict} ({tier}, {r['wall_s']:.0f}s)"
-                elif r["exit"] != 0:
-                    others.append(c)
-            print(f"| {sid} | {prop} | {meta.get('title','')[:110]} | {own} | {', '.join(sorted(set(others)))} |")
+        lines = table_lines()
+        if len(a) > 1 and a[1] == "--into-design":
+            dp = os.path.join(VERIF, "DESIGN.md")
+            d = open(dp).read()
+            b, e = "<!-- SEEDED-TABLE-BEGIN -->", "<!-- SEEDED-TABLE-END -->"
+            if b in d and e in d:
+                d = d[: d.index(b) + len(b)] + "\n" + "\n".join(lines) + "\n" + d[d.index(e):]
+                open(dp, "w").write(d)
+                print("DESIGN.md updated,", len(lines) - 2, "rows")
+            else:
+                print("markers not found in DESIGN.md")
+        else:
+            print("\n".join(lines))
         return 0
+
+
+def table_lines():
+    lines = ["| id | property | seeded change (title given by its author) | first run of the property's check | now |", "|---|---|---|---|---|"]
+    for sid in sorted(os.listdir(SEEDED)):
+        d = os.path.join(SEEDED, sid)
+        if not os.path.exists(os.path.join(d, "meta.json")):
+            continue
+        meta = json.load(open(os.path.join(d, "meta.json")))
+        res = json.load(open(os.path.join(d, "result.json"))) if os.path.exists(os.path.join(d, "result.json")) else {"runs": {}}
+        prop = meta["property"]
+        own = "not run"
+        for k, r in sorted(res["runs"].items()):
+            c, tier = k.split(":")
+            verdict = "silent" if r["exit"] == 0 else ("VIOLATION with replay" if any("no-failing-input-found" not in l for l in r["lines"]) else "VIOLATION no-failing-input-found")
+            if c == prop and (own == "not run" or "replay" in verdict):
+                own = f"{verdict} ({tier}, {r['wall_s']:.0f} s)"
+        first = res.get("first_run", "")
+        title = meta.get("title", "").replace("|", "/")[:150]
+        lines.append(f"| {sid} | {prop} | {title} | {first.replace('|', '/')} | {own} |")
+    return lines
 
 
 if __name__ == "__main__":
